@@ -472,7 +472,13 @@ func init() {
 				segs, outside := c12ParseOutput(run.out)
 				outsideText := strings.Join(outside, "\n")
 				if strings.Contains(run.out, "C12-HARNESS-BUG") {
-					panic("C12 infrastructure error: the generated stress test reports a harness bug (argument construction / unknown parameter type):\n" + c12Tail(run.out, 60))
+					var bugs []string
+					for _, ln := range strings.Split(run.out, "\n") {
+						if strings.Contains(ln, "C12-HARNESS-BUG") && len(bugs) < 20 {
+							bugs = append(bugs, strings.TrimSpace(ln))
+						}
+					}
+					panic("C12 infrastructure error: the generated stress test reports a bug of the harness itself (argument construction, or a wrapper with a parameter type the generator does not know: teach c12.go about it), not a property violation:\n" + strings.Join(bugs, "\n"))
 				}
 				if len(segs) == 0 {
 					// nothing ran: build failure, toolchain missing, module resolution ...
@@ -1212,13 +1218,16 @@ func dryRun(t *testing.T, cfg *mixCfg, ec envCfg, scIdx int) bool {
 	ev := reflect.ValueOf(e)
 	g := &gen{cfg: cfg, rng: rand.New(rand.NewSource(mixSeed(ec.seed, scIdx, 999, 0)))}
 	idx := allowed(cfg)
+	slot := make([]int32, 1)
+	wd := startWatchdog(cfg.name+" (sequential dry run)", 30*time.Second, slot)
+	defer wd.stop()
 	for pass := 0; pass < 3; pass++ {
 		for _, si := range idx {
 			c, ok := r.prepare(ev, si, g)
 			if !ok {
 				return false
 			}
-			r.run(c, nil)
+			r.run(c, &slot[0])
 		}
 	}
 	stopLoader(t, cfg.name, e)
